@@ -4,6 +4,7 @@ From Coq Require Import List Bool Arith ZArith.
 From HV Require Import Ord ListX Sprout SproutFacts Tree TreeLemmas TreeInv TreeRun.
 From HV Require Import DriverPrim SproutPrim GenEquivStops GenLevelLimit FilterDict GenEquivLevelLimit.
 From HV Require Import DriverPrim Driver DriverFacts GenDriver GenEquivDriver DriverCode.
+From HV Require GenOrder GenEquivOrder F64 WMonad.
 Import ListNotations.
 
 Theorem C08_level_limit_always c n0 s L : 1 <= height c -> reach c n0 s -> level_lim c = Some L ->
@@ -57,3 +58,14 @@ Theorem C08_translated_LevelLimit c fuel L cm s :
   answers (gen_LevelLimit c fuel L cm) s (level_limit (maximize c) L (lvl_at (demes (ms s))) (active_at (demes (ms s))) cm).
 Proof. exact (LevelLimit_ok c fuel L cm s). Qed.
 Print Assumptions C08_translated_LevelLimit.
+
+(* ---------------------------------------------------------------- Individual's ordering, TRANSLATED from the current pyhms/core/individual.py
+   (Gen/GenOrder.v: @total_ordering over __lt__ = problem.worse_than(fitnesses), __eq__ = problem.equivalent(fitnesses)): the `>` LevelLimit keeps candidates by is 'strictly better in the problem's direction' — never true between equally fit individuals, whatever their genomes, never true both ways *)
+Theorem C08_translated_individual_gt mx (a b : WMonad.F) : F64.fis_nan a = false -> F64.fis_nan b = false ->
+  GenOrder.gen_ind_gt mx a b = if mx then F64.flt b a else F64.fgt b a.
+Proof. exact (GenEquivOrder.ind_gt_is_strictly_better mx a b). Qed.
+Print Assumptions C08_translated_individual_gt.
+Theorem C08_translated_individual_gt_asymmetric mx (a b : WMonad.F) : F64.fis_nan a = false -> F64.fis_nan b = false ->
+  GenOrder.gen_ind_gt mx a b = true -> GenOrder.gen_ind_gt mx b a = false.
+Proof. exact (GenEquivOrder.ind_gt_asymmetric mx a b). Qed.
+Print Assumptions C08_translated_individual_gt_asymmetric.
